@@ -160,15 +160,19 @@ def parseTransfer (t : String) : Option Transfer :=
   | _ => none
 
 /-- `st prog <kind> <cap> ; <transfer>* ; <close>`   obs: `<verdict>* ; eof=<..> eof=<..>` -/
-def progLine (cap : Nat) (tts : List String) (close : String) (obs : List String) : Bool × Bool × String × String :=
+def progLine (kind cap : Nat) (tts : List String) (closeT : String) (obs : List String) : Bool × Bool × String × String :=
+  -- an upper-case letter: that side goes away without shutting down. To the pipe model that is the same end of the stream;
+  -- over TLS (kinds 6, 7) the session has then not been closed, and what the peer must be told is an error
+  let close := closeT.toLower
+  let cut := fun (c : String) => kind ≥ 6 && (closeT.splitOn c.toUpper).length > 1
   let ts := tts.filterMap parseTransfer
   if ts.length != tts.length then (false, false, "bad-line", "") else
   let fuel := 4 * (ts.map (·.len)).sum + 64 * ts.length + 100
   let st := progRun ts close fuel { d := { ab := { cap := cap }, ba := { cap := cap } } }
   let verdicts := (List.range ts.length).map fun i => (st.res.lookup i).getD "stuck"
   let has := fun (c : String) => (close.splitOn c).length > 1
-  let ea := if has "a" then st.eofA.getD "stuck" else "-"
-  let eb := if has "b" then st.eofB.getD "stuck" else "-"
+  let ea := if has "a" then (if cut "a" && st.eofA == some "ok" then "E" else st.eofA.getD "stuck") else "-"
+  let eb := if has "b" then (if cut "b" && st.eofB == some "ok" then "E" else st.eofB.getD "stuck") else "-"
   let shown := " ".intercalate verdicts ++ s!" ; eof={ea} eof={eb}"
   match splitSemi obs with
   | [ors, [oa, ob]] =>
@@ -176,7 +180,8 @@ def progLine (cap : Nat) (tts : List String) (close : String) (obs : List String
       (if ors.any (·.startsWith "bad") then ["C18/bytes-altered-in-transit"] else []) ++
       (if ors.any (fun o => o.startsWith "short" || o == "stuck" || o == "E") then ["C18/bytes-written-and-flushed-not-delivered"] else []) ++
       (if [oa, ob].any (fun o => o.startsWith "eof=extra") then ["C18/bytes-invented"] else []) ++
-      (if [oa, ob].any (fun o => o == "eof=stuck" || o == "eof=E") then ["C18/eof-not-propagated"] else []) ++
+      (if (oa == "eof=ok" && cut "a") || (ob == "eof=ok" && cut "b") then ["C18/truncated-stream-reported-as-ended"] else []) ++
+      (if (oa == "eof=stuck" || (oa == "eof=E" && !cut "a")) || (ob == "eof=stuck" || (ob == "eof=E" && !cut "b")) then ["C18/eof-not-propagated"] else []) ++
       (if ors.length != ts.length then ["C18/unparsable-observation"] else [])
     (" ".intercalate obs == shown, cls.isEmpty, if cls.isEmpty then "-" else ",".intercalate cls, shown)
   | _ => (false, false, "C18/unparsable-observation", shown)
@@ -203,19 +208,38 @@ def driverLine (inp obs : List String) : Bool × Bool × String × String :=
          v.isNone, v.getD "-", shown)
       | _ => (false, false, "C18/unparsable-observation", shown)
     | _, _ => (false, false, "bad-line", "")
-  | "prog" :: _kind :: cap :: ";" :: rest =>
+  | "prog" :: kind :: cap :: ";" :: rest =>
     (match splitSemi rest with
-     | [tts, [close]] => progLine (natTok cap) tts close obs
+     | [tts, [close]] => progLine (natTok kind) (natTok cap) tts close obs
      | _ => (false, false, "bad-line", ""))
   | "pipe" :: kind :: cap :: ";" :: ops =>
+    if natTok kind ≥ 4 then
+      -- kernel sockets: what the operating system does when a side goes away with data unread, how much one read returns, is
+      -- not the model's to say; the wrapper is the identity (`C18_read_fifo`, `C18_write_forward`: every layer forwards what
+      -- the layer below reports), so the bare sockets under the same operations are the reference: result for result the
+      -- same kind of answer, and the same bytes in all
+      match splitSemi obs with
+      | [wrapped, "ref" :: bare] =>
+        let kindOf := fun (t : String) => if t == "b-" then "eof" else (t.take 1).toString
+        let bytesOf := fun (l : List String) => (l.filter (fun t => t.startsWith "b" && t != "b-")).map fun t => (t.drop 1).toString
+        let same := wrapped.map kindOf == bare.map kindOf && String.join (bytesOf wrapped) == String.join (bytesOf bare)
+        -- the FIFO specification on the operations the model knows (a side that went away has shut down, among other things)
+        let known := (ops.zip wrapped).filterMap fun (o, r) =>
+          let o := if o.endsWith "x" then (o.take 1).toString ++ "s" else o
+          match parsePOp o, parseRes r with | some o, some r => some (o, r) | _, _ => none
+        let fifo := !((pDelivered false (known.map (·.1)) (known.map (·.2))).isPrefixOf (pAccepted true (known.map (·.1)) (known.map (·.2)))) ||
+                    !((pDelivered true (known.map (·.1)) (known.map (·.2))).isPrefixOf (pAccepted false (known.map (·.1)) (known.map (·.2))))
+        let cls : List String := (if !same then ["C18/wrapper-answers-differently-from-the-socket-it-wraps"] else []) ++
+          (if fifo then ["C18/pipe-not-fifo"] else []) ++ (if wrapped.length != ops.length then ["C18/unparsable-observation"] else [])
+        (cls.isEmpty, cls.isEmpty, if cls.isEmpty then "-" else ",".intercalate cls, " ".intercalate bare)
+      | _ => (false, false, "C18/unparsable-observation", "")
+    else
     let ops := ops.filterMap parsePOp
     let d0 : Duplex := { ab := { cap := natTok cap }, ba := { cap := natTok cap } }
     let (mrs, _) := prun d0 ops
     let ors := obs.filterMap parseRes
     let v := if ors.length != ops.length then some "C18/unparsable-observation" else pverdict ops ors
-    -- kernel sockets (kinds 4, 5) may deliver short reads: compared against the FIFO specification only
-    let agree := if natTok kind ≥ 4 then v.isNone else decide (ors = mrs)
-    (agree, v.isNone, v.getD "-", " ".intercalate (mrs.map showRes))
+    (decide (ors = mrs), v.isNone, v.getD "-", " ".intercalate (mrs.map showRes))
   | _ => (false, false, "bad-line", "")
 
 end Hd.Streams
